@@ -535,12 +535,365 @@ pub fn discrete_partitions(rep: &mut Report, prop: &str, seed: u64) {
     }
 }
 
+// ------------------------------------------------------------------ fixed powers of character ranges (C16)
+
+#[derive(Clone, Debug, PartialEq)]
+pub struct Powers {
+    pub lead_star: bool,
+    /// runs (lo, hi, count): count copies of the range [lo, hi]
+    pub runs: Vec<(u32, u32, u32)>,
+    pub trail_star: bool,
+}
+
+impl Powers {
+    pub fn len(&self) -> u64 {
+        self.runs.iter().map(|r| r.2 as u64).sum()
+    }
+    pub fn to_text(&self) -> String {
+        let mut o = String::new();
+        if self.lead_star {
+            o.push_str("* ");
+        }
+        for r in &self.runs {
+            o.push_str(&format!("{:x}-{:x}^{} ", r.0, r.1, r.2));
+        }
+        if self.trail_star {
+            o.push('*');
+        }
+        o.trim().to_string()
+    }
+    pub fn from_text(t: &str) -> Option<Powers> {
+        let mut p = Powers { lead_star: false, runs: vec![], trail_star: false };
+        for tk in t.split_whitespace() {
+            if tk == "*" {
+                if p.runs.is_empty() {
+                    p.lead_star = true;
+                } else {
+                    p.trail_star = true;
+                }
+            } else {
+                let (rg, k) = tk.split_once('^')?;
+                let (a, b) = rg.split_once('-')?;
+                p.runs.push((u32::from_str_radix(a, 16).ok()?, u32::from_str_radix(b, 16).ok()?, k.parse().ok()?));
+            }
+        }
+        Some(p)
+    }
+    pub fn build(&self, m: &mut ReManager) -> RegLan {
+        let mut items: Vec<RegLan> = Vec::new();
+        if self.lead_star {
+            items.push(m.full());
+        }
+        for &(a, b, k) in &self.runs {
+            let r = m.range(a, b);
+            items.push(m.exp(r, k));
+        }
+        if self.trail_star {
+            items.push(m.full());
+        }
+        m.concat_list(items.into_iter())
+    }
+    /// position-wise ranges of the runs from position `from`, `n` positions, as runs again
+    fn window(&self, from: u64, n: u64) -> Vec<(u32, u32, u64)> {
+        let mut out = Vec::new();
+        let (mut pos, end) = (0u64, from + n);
+        for &(a, b, k) in &self.runs {
+            let (s, e) = (pos.max(from), (pos + k as u64).min(end));
+            if s < e {
+                out.push((a, b, e - s));
+            }
+            pos += k as u64;
+        }
+        out
+    }
+}
+
+/// every position of x (runs) is a sub-range of the same position of y (runs); equal total length assumed
+fn positionwise_included(x: &[(u32, u32, u64)], y: &[(u32, u32, u64)]) -> bool {
+    let (mut i, mut j) = (0usize, 0usize);
+    let (mut ri, mut rj) = (x.first().map_or(0, |r| r.2), y.first().map_or(0, |r| r.2));
+    while i < x.len() && j < y.len() {
+        if !(y[j].0 <= x[i].0 && x[i].1 <= y[j].1) {
+            return false;
+        }
+        let d = ri.min(rj);
+        ri -= d;
+        rj -= d;
+        if ri == 0 {
+            i += 1;
+            ri = x.get(i).map_or(0, |r| r.2);
+        }
+        if rj == 0 {
+            j += 1;
+            rj = y.get(j).map_or(0, |r| r.2);
+        }
+    }
+    i == x.len() && j == y.len()
+}
+
+/// is L(left) included in L(right)? `left` has no star. Some(answer) when it is decided analytically
+/// (right with at most one star), None for a right-hand side with two stars.
+pub fn powers_included(left: &Powers, right: &Powers) -> Option<bool> {
+    let (l, r) = (left.len(), right.len());
+    match (right.lead_star, right.trail_star) {
+        (false, false) => Some(l == r && positionwise_included(&left.window(0, l), &right.window(0, r))),
+        (false, true) => Some(l >= r && positionwise_included(&left.window(0, r), &right.window(0, r))),
+        (true, false) => Some(l >= r && positionwise_included(&left.window(l - r.min(l), r), &right.window(0, r))),
+        (true, true) => {
+            if r == 0 {
+                Some(true)
+            } else {
+                None
+            }
+        }
+    }
+}
+
+const POWER_LADDER: [u32; 16] = [1, 2, 3, 255, 256, 257, 1023, 1024, 1025, 4096, 5000, 65_535, 65_536, 65_537, 70_000, 100_000];
+
+fn gen_powers_pair(rng: &mut Rng) -> (Powers, Powers) {
+    let rg = |rng: &mut Rng| -> (u32, u32) { *rng.pick(&[(0x61, 0x61), (0x61, 0x62), (0x61, 0x7a), (0, 0x2FFFF), (0x62, 0x62)]) };
+    let m = *rng.pick(&POWER_LADDER);
+    let n = match rng.below(5) {
+        0 | 1 => m,
+        2 => m.saturating_sub(1).max(1),
+        3 => m + 1,
+        _ => *rng.pick(&POWER_LADDER),
+    };
+    let (x, y) = (rg(rng), if rng.chance(2, 3) { (0, 0x2FFFF) } else { rg(rng) });
+    let mut left = Powers { lead_star: false, runs: vec![(x.0, x.1, m)], trail_star: false };
+    let mut right = Powers { lead_star: rng.chance(1, 4), runs: vec![(y.0, y.1, n)], trail_star: rng.chance(1, 4) };
+    // a last (or first) character on both sides
+    match rng.below(4) {
+        0 => {
+            left.runs.push((0x62, 0x62, 1));
+            right.runs.push((0x62, 0x62, 1));
+        }
+        1 => {
+            left.runs.insert(0, (0x63, 0x63, 1));
+            right.runs.insert(0, (0x61, 0x7a, 1));
+        }
+        2 => {
+            // the right-hand power split in two runs with the same total
+            let k = right.runs[0].2;
+            if k >= 2 {
+                let h = 1 + rng.below(k as u64 - 1) as u32;
+                let (a, b) = (right.runs[0].0, right.runs[0].1);
+                right.runs = vec![(a, b, h), (0, 0x2FFFF, k - h)];
+            }
+        }
+        _ => {}
+    }
+    (left, right)
+}
+
+/// one pair: included_in is judged when it answers true; the union of the two must still contain strings of the left side
+pub fn check_powers_pair(rep: &mut Report, left: &Powers, right: &Powers, seed: u64) {
+    let case = format!("powers {} ; {}", left.to_text(), right.to_text());
+    let r = guard(|| -> Result<(), String> {
+        let mut m = ReManager::new();
+        let (tl, tr) = (left.build(&mut m), right.build(&mut m));
+        rep.inc("power_pairs_asked");
+        rep.max("largest_power_in_an_inclusion_query", left.len().max(right.len()));
+        let got = tl.included_in(tr);
+        let truth = powers_included(left, right);
+        if got {
+            rep.inc("power_pairs_answered_true");
+            if truth == Some(false) {
+                return Err(format!("({}).included_in({}) = true, but every string of the first language has length {} and the second requires {}{} with the ranges shown", left.to_text(), right.to_text(), left.len(), if right.lead_star || right.trail_star { "at least " } else { "exactly " }, right.len()));
+            }
+        }
+        // strings of the left language: all-low, all-high
+        let words: Vec<Vec<u32>> = vec![left.runs.iter().flat_map(|&(a, _, k)| std::iter::repeat(a).take(k as usize)).collect(), left.runs.iter().flat_map(|&(_, b, k)| std::iter::repeat(b).take(k as usize)).collect()];
+        // (membership in a language Sigma* . Y^n ... costs about n derivatives per character: short cases only)
+        let cheap = left.len() <= 70_001 && (!right.lead_star || left.len().max(right.len()) <= 130);
+        if got && cheap {
+            for w in &words {
+                rep.inc("power_members_checked_in_the_including_language");
+                if !m.str_in_re(&sw(w), tr) {
+                    return Err(format!("({}).included_in({}) = true, but the string {}^... of length {} of the first language is not in the second (membership test)", left.to_text(), right.to_text(), show_str(&w[..w.len().min(3)]), w.len()));
+                }
+            }
+        }
+        if cheap {
+            // a union never loses the strings of an operand, whatever the pruning decided
+            let u = m.union(tl, tr);
+            let u2 = m.union(tr, tl);
+            for w in &words {
+                rep.inc("power_members_checked_in_the_union");
+                if !m.str_in_re(&sw(w), u) || !m.str_in_re(&sw(w), u2) {
+                    return Err(format!("union({}, {}) does not contain the string {}... of length {} of its first operand", left.to_text(), right.to_text(), show_str(&w[..w.len().min(3)]), w.len()));
+                }
+            }
+        }
+        Ok(())
+    });
+    match r {
+        Ok(Ok(())) => {}
+        Ok(Err(e)) => viol(rep, "unsound-inclusion", "powers", e, seed, &case),
+        Err(msg) => viol(rep, "included-in-panic", "powers", format!("panicked on {}: {}", case, msg), seed, &case),
+    }
+}
+
+pub fn powers_inclusion(rep: &mut Report, count: u64, rng: &mut Rng, seed: u64) {
+    for _ in 0..count {
+        let (l, r) = gen_powers_pair(rng);
+        let t0 = std::time::Instant::now();
+        check_powers_pair(rep, &l, &r, seed);
+        let el = t0.elapsed().as_millis() as u64;
+        rep.max("power_pair_wall_ms", el);
+        if el > 1000 && std::env::var("SMTMON_SLOW").is_ok() {
+            eprintln!("SLOW {} ms: powers {} ; {}", el, l.to_text(), r.to_text());
+        }
+    }
+}
+
+// ------------------------------------------------------------------ regex replace on subjects of 2^16 characters and more
+
+/// leftmost-shortest replace by definition on the reference DFA, with an exact dead-state test; None when the
+/// work (DFA steps) would exceed `cap` (then the crate is not asked either: its own search costs the same)
+fn replace_by_dfa(d: &crate::oracle::re::Dfa, dead: &[bool], aw: &[usize], subj: &[u32], t: &[u32], all: bool, cap: u64) -> Option<Vec<u32>> {
+    let n = subj.len();
+    let mut out: Vec<u32> = Vec::new();
+    let mut pos = 0usize;
+    let mut work = 0u64;
+    loop {
+        let mut found: Option<(usize, usize)> = None;
+        let mut i = pos;
+        'starts: while i <= n {
+            let mut st = d.start;
+            if d.f[st as usize] && !all {
+                found = Some((i, i));
+                break 'starts;
+            }
+            let mut j = i;
+            while j < n && !dead[st as usize] {
+                st = d.step(st, aw[j]);
+                j += 1;
+                work += 1;
+                if work > cap {
+                    return None;
+                }
+                if d.f[st as usize] {
+                    found = Some((i, j));
+                    break 'starts;
+                }
+            }
+            i += 1;
+        }
+        match found {
+            Some((i, j)) => {
+                out.extend_from_slice(&subj[pos..i]);
+                out.extend_from_slice(t);
+                pos = j;
+                if !all {
+                    out.extend_from_slice(&subj[pos..]);
+                    return Some(out);
+                }
+            }
+            None => {
+                out.extend_from_slice(&subj[pos.min(n)..]);
+                return Some(out);
+            }
+        }
+    }
+}
+
+pub fn long_subject_replace(rep: &mut Report, which: usize, n: usize, seed: u64) {
+    use crate::oracle::re::*;
+    use aws_smt_strings::smt_regular_expressions as w;
+    let case = format!("long-replace {} {}", which, n);
+    let (a, b, x) = (0x61u32, 0x62u32, 0x78u32);
+    let ch = |c: u32| r_range(c, c);
+    let notb = r_or(vec![r_range(0, b - 1), r_range(b + 1, 0x2FFFF)]);
+    // patterns
+    let pats: Vec<(&str, R)> = vec![
+        ("a Sigma* b", r_cat(vec![ch(a), r_all(), ch(b)])),
+        ("[^b]* b", r_cat(vec![r_loop(notb.clone(), 0, None), ch(b)])),
+        ("a x* b", r_cat(vec![ch(a), r_loop(ch(x), 0, None), ch(b)])),
+        ("(x x)+ b", r_cat(vec![r_loop(r_cat(vec![ch(x), ch(x)]), 1, None), ch(b)])),
+        ("a{3,5}", r_loop(ch(a), 3, Some(5))),
+        ("x* a", r_cat(vec![r_loop(ch(x), 0, None), ch(a)])),
+    ];
+    // subjects
+    let rep_x = |k: usize| std::iter::repeat(x).take(k);
+    let subjects: Vec<(&str, Vec<u32>)> = vec![
+        ("a x^n b", std::iter::once(a).chain(rep_x(n)).chain(std::iter::once(b)).collect()),
+        ("x^n b", rep_x(n).chain(std::iter::once(b)).collect()),
+        ("x^n a x x x b x^n", rep_x(n).chain([a, x, x, x, b]).chain(rep_x(n)).collect()),
+        ("x^n a a a a x", rep_x(n).chain([a, a, a, a, x]).collect()),
+        ("b^n a x b", std::iter::repeat(b).take(n).chain([a, x, b]).collect()),
+    ];
+    let (pname, pr) = &pats[which % pats.len()];
+    let r = guard(|| -> Result<(), String> {
+        let mut eng = Engine::new(Atoms::from_points(&[a, b, x]), 4000);
+        eng.ensure_ref(pr);
+        let d = eng.dfa(pr).map_err(|_| "reference budget".to_string())?;
+        let dead: Vec<bool> = (0..d.n() as u32).map(|s| d.is_empty_from(s)).collect();
+        // the same pattern through the wrappers
+        let s1 = |c: u32| SmtString::from(&[c][..]);
+        let tb = w::str_to_re(&s1(b));
+        let ta = w::str_to_re(&s1(a));
+        let tx = w::str_to_re(&s1(x));
+        let term = match which % pats.len() {
+            0 => w::re_concat_list([ta, w::re_all(), tb].into_iter()),
+            1 => w::re_concat(w::re_star(w::re_diff(w::re_allchar(), tb)), tb),
+            2 => w::re_concat_list([ta, w::re_star(tx), tb].into_iter()),
+            3 => w::re_concat(w::re_plus(w::re_concat(tx, tx)), tb),
+            4 => w::re_loop(ta, 3, 5),
+            _ => w::re_concat(w::re_star(tx), ta),
+        };
+        for (sname, subj) in &subjects {
+            let aw = eng.atoms.word_of(subj);
+            for (rp, all) in [(vec![0x54u32], false), (vec![0x54u32], true), (vec![], true)] {
+                let want = match replace_by_dfa(&d, &dead, &aw, subj, &rp, all, 3_000_000) {
+                    Some(v) => v,
+                    None => {
+                        rep.inc("long_replace_cases_skipped_quadratic");
+                        continue;
+                    }
+                };
+                rep.inc("long_subject_replace_calls_compared");
+                rep.max("longest_subject_in_a_regex_replace", subj.len() as u64);
+                let (ss, st) = (SmtString::from(&subj[..]), SmtString::from(&rp[..]));
+                let got: Vec<u32> = if all { w::str_replace_re_all(&ss, term, &st) } else { w::str_replace_re(&ss, term, &st) }.iter().copied().collect();
+                if got != want {
+                    let first = got.iter().zip(want.iter()).position(|(p, q)| p != q).unwrap_or(got.len().min(want.len()));
+                    return Err(format!("{}(subject {} with n = {}, pattern {}, replacement {}) has length {} and differs from the leftmost-shortest definition (length {}) at position {}", if all { "str_replace_re_all" } else { "str_replace_re" }, sname, n, pname, show_str(&rp), got.len(), want.len(), first));
+                }
+            }
+        }
+        Ok(())
+    });
+    match r {
+        Ok(Ok(())) => {}
+        Ok(Err(e)) => viol(rep, "replace-re", "long-subject", e, seed, &case),
+        Err(msg) => viol(rep, "replace-panic", "long-subject", format!("panicked: {}", msg), seed, &case),
+    }
+}
+
 pub fn replay(text: &str, seed: u64, rep: &mut Report) -> bool {
+    if let Some(rest) = text.trim().strip_prefix("powers ") {
+        if let Some((a, b)) = rest.split_once(';') {
+            if let (Some(l), Some(r)) = (Powers::from_text(a), Powers::from_text(b)) {
+                check_powers_pair(rep, &l, &r, seed);
+                return true;
+            }
+        }
+        return false;
+    }
     let tk: Vec<&str> = text.split_whitespace().collect();
     match tk.as_slice() {
         ["traversal", k, c] => {
             if let (Some(kind), Ok(c)) = (Trav::from_name(k), c.parse::<u32>()) {
                 traversal_gap(rep, kind, c, seed);
+                return true;
+            }
+            false
+        }
+        ["long-replace", k, n] => {
+            if let (Ok(k), Ok(n)) = (k.parse::<usize>(), n.parse::<usize>()) {
+                long_subject_replace(rep, k, n, seed);
                 return true;
             }
             false
